@@ -73,6 +73,9 @@ def method_form(name, positional, options):
         for otoks, kw in opt_subsets(options):
             line = " ".join([cmd] + ptoks + otoks)
             out.append((line, name, tuple(pvals), dict(kw)))
+            if ptoks and len(kw) == 1:
+                # the same request with the option written before the positional arguments (argparse's usage order)
+                out.append((" ".join([cmd] + otoks + ptoks), name, tuple(pvals), dict(kw)))
     return out
 
 
